@@ -60,7 +60,9 @@ contract(
     ensures=_gh_post,
     verify=False,
     assumed=True,
-    doc="[to be verified] for every requested path the returned dict holds the hash of that very path under `name` "
+    bounded=("bounded/state_hashes.py", 40, 600),
+    props=["C13"],
+    doc="[body not verified: bounded stand-in] for every requested path the returned dict holds the hash of that very path under `name` "
         "(state hits and fresh hashes merged by path); nothing is said about the ORDER of the returned dict",
 )
 
